@@ -460,9 +460,10 @@ def main(tier, seed, replay=None):
     flipped = 0
     for t in good:
         for e in t["ev"]:
-            if e["a"] == "apply" and 0 < len(e["all"]) < t["n"]:
-                missing = sorted(set(range(1, t["n"] + 1)) - set(e["all"]))
-                e["all"][0] = missing[0]
+            if e["a"] == "apply" and len(e["all"]) > 0:
+                # dropping a selected event is never a behaviour of the spec
+                # (the selection has exactly the required size)
+                e["all"] = e["all"][1:]
                 flipped += 1
                 break
     good = [t for t in good if any(e["a"] == "apply" for e in t["ev"])]
